@@ -297,6 +297,68 @@ func runC08(c *Ctx) {
 		}
 	}
 
+	// ---------------------------------------------------------------- C08.4
+	// (defect D31) io.Reader allows Read with an empty buffer.  In the adapters 'zero bytes
+	// delivered' is otherwise the sign that the current message is exhausted, so moving on to the
+	// next message (and every read of the per-message source) must happen only where the buffer
+	// is known to be non-empty.
+	c.Rule("C08.4", "a Read with an empty buffer returns before the adapter advances: advancing is dominated by len(data) != 0", 2)
+	for _, ra := range ras {
+		fn := ra.read
+		dataParam := fn.Params[1]
+		nonEmpty := func(in ssa.Instruction) bool {
+			for _, f := range FactsAt(in.Block()) {
+				cmp, ok := f.AsCmp()
+				if !ok {
+					continue
+				}
+				x, y, op := cmp.X, cmp.Y, cmp.Op
+				if isLenOf(y, dataParam) {
+					x, y, op = y, x, flip(op)
+				}
+				if !isLenOf(x, dataParam) {
+					continue
+				}
+				k, isK := ConstInt(y)
+				if !isK {
+					continue
+				}
+				if k == 0 && (op == token.NEQ || op == token.GTR) || k == 1 && op == token.GEQ {
+					return true
+				}
+			}
+			return false
+		}
+		n := 0
+		for _, call := range Calls(fn) {
+			// advancing: a static call of a module function that reads the body (prepares the
+			// next message), or a read of the per-message source
+			adv := ra.isPayloadRead(call)
+			if sc := call.Common().StaticCallee(); sc != nil && p.inScope(sc) && sc != fn {
+				for _, r2 := range SortedFuncs(p.Reach(sc)) {
+					if !p.inScope(r2) {
+						continue
+					}
+					for _, c2 := range Calls(r2) {
+						if IsCallTo(c2, "io.ReadFull", "io.CopyN", "io.Copy", "io.ReadAll") {
+							adv = true
+						}
+					}
+				}
+			}
+			if !adv {
+				continue
+			}
+			n++
+			c.Check(nonEmpty(call), "C08.4", FuncName(fn), "advance-needs-nonempty-buffer:"+CalleeName(call), call.Pos(),
+				"reached only where len(data) != 0 is known",
+				"the adapter reads the per-message source / moves on to the next message although the caller's buffer may be empty: 'zero bytes delivered' is then taken for the end of the current message, whose remaining bytes are dropped or parsed as the next envelope")
+		}
+		if n == 0 {
+			c.Bad("C08.4", FuncName(fn), "advance-needs-nonempty-buffer", fn.Pos(), "no advance found in Read: shape changed")
+		}
+	}
+
 	// ---------------------------------------------------------------- C08.3
 	c.Rule("C08.3", "bytes obtained from the per-message source are always handed to the caller", 3)
 	for _, ra := range ras {
